@@ -116,6 +116,18 @@ def Val.sprintFields : List (Str × Str × Bool × Val) → Str
   | (_, _, _, a) :: b :: r => Val.sprint a ++ ' ' :: Val.sprintFields (b :: r)
 end
 
+/-- Go's `<` on strings (bytewise; for valid UTF-8 that is code point by code point) -/
+def strLe : Str → Str → Bool
+  | [], _ => true
+  | _ :: _, [] => false
+  | a :: r, b :: s => if a.toNat < b.toNat then true else if b.toNat < a.toNat then false else strLe r s
+
+/-- the order in which a loop visits the items of a map: by key. A map with string keys is sorted here (the model builds such maps itself,
+    e.g. from a struct's fields, in declaration order); a map with other keys arrives from the harness in key order already (numbers
+    numerically), its keys being carried in printed form -/
+def Val.iterOrder (mk : MapKind) (kvs : List (Str × Val)) : List (Str × Val) :=
+  if mk == .nonStrKey then kvs else kvs.mergeSort (fun a b => strLe a.1 b.1)
+
 /-- outcomes of the model that are not values: Go panics and hangs are results, not artefacts of totality -/
 inductive Res (α : Type) where
   | ok (a : α)
